@@ -177,6 +177,12 @@ pub fn eval(ctx: &Ctx, case: &Case) {
                         ss = lib_g1(&s, &SplitMix::new(ctx.seed, "c09lambda").nonzero_below(&pr.p));
                         expect_ok = true;
                     }
+                    // a verifier holds the master PUBLIC key only: the secret field of the object is a dummy
+                    "public-only-verifier/ks=0" | "public-only-verifier/ks=1" | "public-only-verifier/ks=seed" => {
+                        let dummy = if f.ends_with("=0") { BigUint::zero() } else if f.ends_with("=1") { BigUint::one() } else { SplitMix::new(ctx.seed, "c09dummy").nonzero_below(n) };
+                        msk = lib_master(&dummy, &ppubs);
+                        expect_ok = true;
+                    }
                     "h=0" => hh = BigUint::zero(),
                     "h=1" => hh = BigUint::one(),
                     "h=N-1" => hh = n - 1u32,
@@ -249,7 +255,7 @@ pub const ANNEX_R: &str = "00033C8616B06704813203DFD00965022ED15975C662337AED648
 pub fn run(ctx: &Arc<Ctx>) {
     refmodels::selftest::run(&["sm3", "sm9"]).unwrap_or_else(|e| ctx.machinery_error(format!("reference self-test failed: {}", e)));
     let n = sm9::params().n.clone();
-    ctx.set_rule("signing: master keys {Annex ks, 1, N-2, seeded, H1(ID), 2^256-H1(ID)+{-1,0,1}} x nonces r (via the RNG seam) {1,2,N-2,Annex r,2^255,seeded x2} at one identity/message, identities {Alice,'',64 bytes,seeded, 12 normalisation-sensitive variants of one name} x message lengths {0,1,20,55,56,64,1024} at one (master, r), key objects holding Ppub-s / ds in Jacobian representations with structured Z (Z in Fp, purely imaginary, generic): (h,S) equals the reference signature for the accepted r (incl. the GM/T 0044.5 example), h in [1,N-1], S on the curve, the library verifies it. Verification: reference-made signatures must be accepted as they are and with S in another Jacobian representation; all 256 single-bit flips of h, h in {0,1,N-1,N,N+1,2^256-1,h+N}, S in {-S,2S,P1,ds,infinity,off-curve,(0,0)}, altered message / identity / master public key must be refused with an error, never a panic.");
+    ctx.set_rule("signing: master keys {Annex ks, 1, N-2, seeded, H1(ID), 2^256-H1(ID)+{-1,0,1}} x nonces r (via the RNG seam) {1,2,N-2,Annex r,2^255,seeded x2} at one identity/message, identities {Alice,'',64 bytes,seeded, 12 normalisation-sensitive variants of one name} x message lengths {0,1,20,55,56,64,1024} and every message length 0..=300 (thorough 1200) at one (master, r), key objects holding Ppub-s / ds in Jacobian representations with structured Z (Z in Fp, purely imaginary, generic): (h,S) equals the reference signature for the accepted r (incl. the GM/T 0044.5 example), h in [1,N-1], S on the curve, the library verifies it. Verification: reference-made signatures must be accepted as they are, with S in another Jacobian representation and by a verifier object whose secret field is a dummy (public key only); all 256 single-bit flips of h, h in {0,1,N-1,N,N+1,2^256-1,h+N}, S in {-S,2S,P1,ds,infinity,off-curve,(0,0)}, altered message / identity / master public key must be refused with an error, never a panic.");
     let mut g = SplitMix::new(ctx.seed, "c09");
     // ks = H1(Alice||01): [H1]P2 + Ppub-s is then a doubling inside verification
     let masters: Vec<(String, BigUint)> = vec![("annex".into(), hb(ANNEX_KS)), ("1".into(), BigUint::one()), ("N-2".into(), &n - 2u32), ("seed".into(), g.nonzero_below(&n)), ("H1(ID)".into(), sm9::h1(b"Alice", sm9::HID_SIGN))];
@@ -293,6 +299,10 @@ pub fn run(ctx: &Arc<Ctx>) {
     for id in crate::alpha::NORM_IDS {
         cases.push(Case::Sign { ks: ANNEX_KS.into(), id: id.into(), msg_len: 20, r: ANNEX_R.into(), tag: "id=normalisation-sensitive".into() });
     }
+    // every message length 0..=300 at one (master, identity, r): the hash input 02 || M || w crosses every buffer size
+    for ml in 0..=ctx.tier.pick(300usize, 1200) {
+        cases.push(Case::Sign { ks: ANNEX_KS.into(), id: "Alice".into(), msg_len: ml, r: ANNEX_R.into(), tag: "mlen-sweep".into() });
+    }
     // key objects in other Jacobian representations (the fields are public; extract_key and decoders produce both kinds)
     for (i, zq) in Z2_NAMES.iter().enumerate() {
         let zp = Z1_NAMES[i % Z1_NAMES.len()];
@@ -325,7 +335,7 @@ pub fn run(ctx: &Arc<Ctx>) {
         }
     }
     let nbase = ctx.tier.pick(4usize, 48);
-    let mut forges: Vec<String> = vec!["none", "rerandomised-S", "h=0", "h=1", "h=N-1", "h=N", "h=N+1", "h=2^256-1", "h+N", "S=-S", "S=2S", "S=P1", "S=ds", "S=infinity", "S=infinity/h=H2(M||0)", "S=infinity/h=H2(M||1)", "S=off-curve(y+1)", "S=off-curve(x+1)", "S=(0,0)", "msg-bitflip", "msg-extended", "id-changed", "other-master-public-key"].iter().map(|s| s.to_string()).collect();
+    let mut forges: Vec<String> = vec!["none", "rerandomised-S", "public-only-verifier/ks=0", "public-only-verifier/ks=1", "public-only-verifier/ks=seed", "h=0", "h=1", "h=N-1", "h=N", "h=N+1", "h=2^256-1", "h+N", "S=-S", "S=2S", "S=P1", "S=ds", "S=infinity", "S=infinity/h=H2(M||0)", "S=infinity/h=H2(M||1)", "S=off-curve(y+1)", "S=off-curve(x+1)", "S=(0,0)", "msg-bitflip", "msg-extended", "id-changed", "other-master-public-key"].iter().map(|s| s.to_string()).collect();
     for b in 0..256 {
         forges.push(format!("h-bit:{}", b));
     }
